@@ -44,6 +44,8 @@ PLANS = [
     ("ctxskip", ["ctxskip"], [1, 4], 6, 8),
     ("chain", ["chain"], [1, 2, 4], 4, 5),
     ("gpos", ["gpos"], [1, 2, 3, 4, 5], 3, 4),
+    ("ctxfilt", ["ctxfilt"], [1, 4, 5], 4, 5),
+    ("bigid", ["bigid"], [100, 65535], 2, 2),         # explicit inputs over the whole 16-bit range
 ]
 
 
@@ -259,7 +261,10 @@ def run(ctx):
     report = make_reporter(ctx, binp, "C06", ("mismatch", "panic", "hang", "textloss"))
     rt0 = repo_tests(ctx, binp, report)
     plans = []
+    only = os.environ.get("VERIF_C06_ONLY")           # development aid: a subset of the plans (no evidence)
     for name, fams, alpha, ql, tl in PLANS:
+        if only and name not in only.split(","):
+            continue
         cases = sc.build(fams, deep=not ctx.quick())
         plans.append((name, cases, alpha, ql if ctx.quick() else tl))
     tot = {"n": 0, "defined": 0}
